@@ -50,6 +50,19 @@ def run_sub(pu, inn, tn, td, a=1.0, b=0.0, SC=SC):                 # pylint: dis
     except vlib.CallTimeout:
         status = "loop"
         LOOPS[0] += 1
+        if LOOPS[0] <= 8:
+            # wall-clock limits: confirm with a generous one, on a fresh copy, before calling it a loop
+            nodes2 = [[[f(h[0]), f(h[1])] for h in nd] for nd in inn]
+            try:
+                with vlib.time_limit(10.0):
+                    pu.subdivideCubicPath(nodes2, flat)
+                if len(nodes2) <= NODE_CAP:
+                    status, nodes, ids = "ok", nodes2, {id(nd): k for k, nd in enumerate(nodes2)}
+                    LOOPS[0] -= 1
+            except vlib.CallTimeout:
+                pass
+            except Exception as ex:  # pylint: disable=broad-except
+                status = "raised:" + type(ex).__name__
     except Exception as ex:  # pylint: disable=broad-except
         status = "raised:" + type(ex).__name__
     if len(nodes) > NODE_CAP:
